@@ -10,6 +10,7 @@ use crate::refimpl::chunker::{self as r1, Algo, Cfg};
 use crate::refimpl::model::Prediction;
 use crate::scn::{self, Arch, CloneSpec, CompressSpec};
 use crate::util::{b2, Rng};
+use std::os::unix::fs::OpenOptionsExt;
 use serde_json::{json, Value};
 use std::path::{Path, PathBuf};
 use std::sync::Arc;
@@ -514,7 +515,44 @@ pub fn run_clone(dir: &Path, b: &Built, sc: &Scenario, tag: &str, faults: &Fault
         Some(s) => s.url(),
         None => proc::p(&b.arch.path),
     };
-    let spec = clone_spec(b, sc, archive);
+    let mut spec = clone_spec(b, sc, archive);
+    // One scenario in six delivers its first seed through a named pipe (`--seed <(...)`,
+    // a device node: st_size 0, not seekable) instead of a regular file.
+    let mut fifo_feeder: Option<(std::sync::Arc<std::sync::atomic::AtomicBool>, std::thread::JoinHandle<()>)> = None;
+    if sc.src_seed % 6 == 2 && !spec.seeds.is_empty() {
+        let fifo = dir.join(format!("{}.seed0.fifo", tag));
+        let _ = std::fs::remove_file(&fifo);
+        let c = std::ffi::CString::new(fifo.to_string_lossy().as_bytes()).unwrap();
+        if unsafe { libc::mkfifo(c.as_ptr(), 0o600) } == 0 {
+            let data = b.seeds[0].clone();
+            let stop = std::sync::Arc::new(std::sync::atomic::AtomicBool::new(false));
+            let stop2 = stop.clone();
+            let h = std::thread::spawn(move || {
+                use std::io::Write;
+                use std::os::unix::io::FromRawFd;
+                // Non-blocking open fails with ENXIO until the clone has opened the pipe for
+                // reading; give up when the run is over.
+                loop {
+                    let fd = unsafe { libc::open(c.as_ptr(), libc::O_WRONLY | libc::O_NONBLOCK | libc::O_CLOEXEC) };
+                    if fd >= 0 {
+                        unsafe {
+                            let fl = libc::fcntl(fd, libc::F_GETFL);
+                            libc::fcntl(fd, libc::F_SETFL, fl & !libc::O_NONBLOCK);
+                        }
+                        let mut f = unsafe { std::fs::File::from_raw_fd(fd) };
+                        let _ = f.write_all(&data);
+                        return;
+                    }
+                    if stop2.load(std::sync::atomic::Ordering::Relaxed) {
+                        return;
+                    }
+                    std::thread::sleep(std::time::Duration::from_millis(2));
+                }
+            });
+            spec.seeds[0] = fifo;
+            fifo_feeder = Some((stop, h));
+        }
+    }
     let mut run = Run::new(dir, tag, scn::clone_args(&spec));
     run.watch = vec![b.out_path.clone(), b.arch.path.clone()];
     run.log_reads = true;
@@ -536,6 +574,24 @@ pub fn run_clone(dir: &Path, b: &Built, sc: &Scenario, tag: &str, faults: &Fault
         run.bin = proc::Bin::Release;
     }
     let o: Outcome = proc::run(&run);
+    if let Some((stop, h)) = fifo_feeder {
+        stop.store(true, std::sync::atomic::Ordering::Relaxed);
+        // A feeder blocked in write() is released by draining the pipe from our side.
+        if !h.is_finished() {
+            if let Ok(f) = std::fs::OpenOptions::new().read(true).custom_flags(libc::O_NONBLOCK).open(&spec.seeds[0]) {
+                use std::io::Read;
+                let mut f = f;
+                let mut buf = vec![0u8; 1 << 16];
+                let t0 = std::time::Instant::now();
+                while !h.is_finished() && t0.elapsed().as_secs() < 5 {
+                    let _ = f.read(&mut buf);
+                    std::thread::sleep(std::time::Duration::from_millis(1));
+                }
+            }
+        }
+        let _ = h.join();
+        let _ = std::fs::remove_file(&spec.seeds[0]);
+    }
     let requests = server.as_ref().map(|s| s.take_log()).unwrap_or_default();
     drop(server);
     let writes = proc::writes_to(&o.shim, 0);
